@@ -70,19 +70,28 @@ class Prop(Check):
         "Proc.C13_unlinked_no_processing",
         "Proc.C13_root_kept",
         "Proc.C13_root_calls",
+        "Proc.C13_model_calls_own",
+        "Proc.C13_model_calls_none",
+        "Proc.C13_model_called_iff",
+        "Proc.C13_model_calls_indep",
+        "Proc.C13_load_model_calls_own",
     ]
     DRIVER = "Drivers/Proc.lean"
     QUICK_CASES = 440
     THOROUGH_CASES = 12000
     RULE = ("generated grammars with 2..5 common rules, 0..3 abstract rules (nested, with match-rule alternatives, "
             "wrapped alternatives), recursive containment, references with postponement schedules, user classes, "
-            "1..3 files; processors on all rules or a random subset, 15% of the calls return a replacement; "
+            "1..3 files; processors on all rules, a random subset, the abstract rules only or no rule at all (also: "
+            "register_obj_processors never called), 15% of the calls return a replacement; "
             "the grammar in one file or spread over up to 12 files importing each other (rules reachable through a "
             "chain of imports only); the observed load alone or after a history: 1..3 metamodels of the same grammar "
             "built in any order with the same (or fresh) user classes, earlier loads with any of them (successful, or "
             "failing with a syntax error / an unresolvable reference / a raising processor), registrations that are "
             "replaced, a model repository that keeps the models of earlier loads, imported files that belong to "
-            "another metamodel of the history (registered language); "
+            "another metamodel of the history (registered language; 70% of the multi-file loads without repository), "
+            "each metamodel of a load with its own registration profile, drawn as a contrast (main none / other "
+            "some, main some / other none, complementary, equal, independent), its own match processors and its own "
+            "subset of the user classes; "
             "non-trivial = at least 3 processor calls and (a replacement took effect or an object sits in an "
             "abstract-typed attribute whose rule has a processor)")
     MODELLED = ("hand-modelled: model.py call_obj_processors (Proc.walk/walkFields/walkSlot/walkItems/objStep) and the "
@@ -112,25 +121,52 @@ class Prop(Check):
             self.decorate(case, r)
             yield case
 
+    REG_MODES = [("all", 5), ("subset", 4), ("abs-only", 1), ("none", 1)]
+
+    @staticmethod
+    def rule_names(schema):
+        return [x["name"] for x in schema["rules"]] + [a["name"] for a in schema["abstracts"]]
+
+    def reg_profile(self, r, schema, mode, against=()):
+        """the rules one metamodel registers an object processor for.  "recording processors registered on
+        every rule" is the full profile; a metamodel of a load may also have processors on some rules only,
+        on the abstract rules only, or none at all — and the metamodels of one load each have their own."""
+        rules = self.rule_names(schema)
+        if mode == "all":
+            return list(rules)
+        if mode == "subset":
+            return [x for x in rules if r.chance(0.6)]
+        if mode == "abs-only":
+            return [a["name"] for a in schema["abstracts"]]
+        if mode == "complement":
+            return [x for x in rules if x not in against]
+        if mode == "same":
+            return list(against)
+        return []
+
     def decorate(self, case, r):
         schema = case["schema"]
-        rules = [x["name"] for x in schema["rules"]] + [a["name"] for a in schema["abstracts"]]
-        mode = r.weighted([("all", 5), ("subset", 4), ("abs-only", 1)])
-        if mode == "all":
-            reg = list(rules)
-        elif mode == "subset":
-            reg = [x for x in rules if r.chance(0.6)]
-        else:
-            reg = [a["name"] for a in schema["abstracts"]]
-        case["reg"] = reg
+        mode = r.weighted(self.REG_MODES)
+        case["reg"] = self.reg_profile(r, schema, mode)
         case["match_reg"] = [m["name"] for m in schema["matches"] if r.chance(0.5)]
+        if mode == "none" and r.chance(0.6):
+            case["match_reg"] = []  # no processor of any kind
         case["layout"] = r.below(1 << 30)
+        self.gen_config(case, r.fork("config"))
+        self.gen_history(case, r.fork("history"))  # may re-draw the registrations: profiles of a load contrast
+        self.gen_script(case, r.fork("script"))
+        # postponement: a round that resolves nothing ends the loop (C09) -> contiguous waits
+        self.rerank(case)
+
+    def gen_script(self, case, r):
+        """scripted return values: for calls the registrations of the object's own metamodel entitle."""
         rend = pg.render(case, case["layout"])
-        rm = pg.rule_map(schema)
+        rm = pg.rule_map(case["schema"])
+        fregs = self.file_regs(case)
         script = []
         for uid, o in sorted(rend.objs.items()):
             for rule in dict.fromkeys([o["rule"], o["decl"]]):
-                if rule in reg and r.chance(0.15):
+                if rule in fregs[o["file"]] and r.chance(0.15):
                     kind = r.weighted([("v", 6), ("s", 1), ("f", 2)])
                     if kind == "v":
                         script.append([rule, uid, ["v", r.below(len(VALUES))]])
@@ -145,10 +181,6 @@ class Prop(Check):
                         if cands:
                             script.append([rule, uid, ["f", r.choice(cands)]])
         case["script"] = script
-        # postponement: a round that resolves nothing ends the loop (C09) -> contiguous waits
-        self.rerank(case)
-        self.gen_config(case, r.fork("config"))
-        self.gen_history(case, r.fork("history"))
 
     # "For any grammar": the grammar may be spread over files that import each other.
     # "For any … model": the load may be one of many — other metamodels built from the same grammar
@@ -175,38 +207,35 @@ class Prop(Check):
         direct = {0} | {lev[y] for x, ys in uses.items() if lev[x] == 0 for y in ys}
         return [x["uid"] for f in case["files"] for x in pg.walk_objs(f["root"]) if lev[x["rule"]] not in direct]
 
+    # contrast of the registration profiles of the metamodels of one load (main metamodel = label 0,
+    # the metamodels that own imported files): whatever one of them registers must not matter to the others
+    PAIRS = [("main-none", 3), ("other-none", 2), ("complement", 2), ("same", 1), ("free", 4)]
+
     def gen_history(self, case, r):
         nfiles = len(case["files"])
-        repo = bool(case.get("grepo")) and nfiles > 1  # a repository only matters when there were earlier loads
-        if not r.chance(0.55) and not repo:
-            return
         schema = case["schema"]
-        rules = [x["name"] for x in schema["rules"]] + [a["name"] for a in schema["abstracts"]]
-        labels = r.shuffle(list(range(1 + r.weighted([(0, 2), (1, 5), (2, 2)]))))
-        timed, built = [], {}
-        for j, lab in enumerate(labels):
-            built[lab] = 100 * j
-            timed.append((100 * j, len(timed), ["build", lab, True if lab == 0 else r.chance(0.85)]))
-            if lab != 0 and r.chance(0.85):
-                timed.append((100 * j, len(timed), ["reg", lab, [x for x in rules if r.chance(0.6)]]))
-        end = 100 * len(labels)
-        tfinal = r.randint(built[0] + 1, end)
-        if r.chance(0.3):  # a registration that is replaced by the final one
-            timed.append((r.randint(built[0] + 1, tfinal), len(timed), ["reg", 0, [x for x in rules if r.chance(0.5)]]))
-        timed.append((tfinal, len(timed), ["reg", 0, None]))
-        for _ in range(r.weighted([(0, 2), (1, 4), (2, 3)])):
-            lab = r.choice(labels)
-            kind = r.weighted([("ok", 6), ("syntax", 1), ("ref", 1), ("proc", 1)])
-            main = r.below(nfiles) if nfiles > 1 and r.chance(0.5) else 0
-            timed.append((r.randint(built[lab] + 1, end + 20), len(timed), ["load", lab, kind, main]))
-        if repo and r.chance(0.8):  # an imported file was loaded before (as a main model): its model is kept
-            timed.append((r.randint(built[0] + 1, end + 20), len(timed), ["load", 0, "ok", r.randint(1, nfiles - 1)]))
-        case["history"] = {"steps": [st for _t, _n, st in sorted(timed, key=lambda x: x[:2])]}
-        # imported files that belong to another metamodel of the history (registered as a language for
-        # their file extension): their models are walked with that metamodel's registrations
+        repo = bool(case.get("grepo")) and nfiles > 1  # a repository only matters when there were earlier loads
+        # imported files that belong to another metamodel (registered as a language for their file extension):
+        # only files that do not lead back to the main file (which is loaded with metamodel 0)
+        eligible = [k for k in range(1, nfiles) if 0 not in self.closure(case, k)]
+        want_mm = bool(eligible) and not case.get("grepo") and r.chance(0.7)
+        want_hist = r.chance(0.55)
+        if not (want_hist or repo or want_mm):
+            if not case["reg"] and not case["match_reg"] and r.chance(0.5):
+                case["history"] = {"steps": [["build", 0, True]]}  # register_obj_processors is never called
+            return
+        rules = self.rule_names(schema)
+        nother = r.weighted([(0, 2), (1, 5), (2, 2)])
+        if want_mm:
+            nother = max(1, nother)
+        labels = r.shuffle(list(range(1 + nother)))
         others = [lab for lab in labels if lab != 0]
-        if nfiles > 1 and others and not case.get("grepo") and r.chance(0.9):
-            mmfile = {str(k): r.choice(others) for k in range(1, nfiles) if r.chance(0.7)}
+        # which metamodel owns which imported file
+        mmfile = {}
+        if want_mm:
+            mmfile = {str(k): r.choice(others) for k in eligible if r.chance(0.7)}
+            if not mmfile:
+                mmfile[str(r.choice(eligible))] = r.choice(others)
             # a file without a language of its own is loaded with the metamodel of the file that imports it
             # first; to keep "which metamodel" decidable such files are imported by files of metamodel 0 only
             changed = True
@@ -216,8 +245,75 @@ class Prop(Check):
                     for j in case["files"][int(k)]["imports"]:
                         if j != 0 and str(j) not in mmfile:
                             mmfile[str(j)], changed = lab, True
-            if not any(0 in case["files"][int(k)]["imports"] for k in mmfile):
-                self.set_mmfile(case, mmfile)
+        owners = sorted(set(mmfile.values()))
+        # registration profiles: label -> rules (None: register_obj_processors is never called)
+        prof = {}
+        pair = r.weighted(self.PAIRS) if owners else "free"
+        if pair == "main-none":
+            case["reg"] = []
+            if r.chance(0.8):
+                case["match_reg"] = []
+        elif pair == "other-none":
+            if not case["reg"]:
+                case["reg"] = self.reg_profile(r, schema, r.weighted([("all", 2), ("subset", 1)]))
+        elif pair == "complement":
+            if len(case["reg"]) in (0, len(rules)):
+                case["reg"] = self.reg_profile(r, schema, "subset")
+        for lab in others:
+            if lab in owners and pair != "free":
+                mode = {"main-none": r.weighted([("all", 3), ("subset", 2), ("abs-only", 1)]),
+                        "other-none": "none", "complement": "complement", "same": "same"}[pair]
+            else:
+                mode = r.weighted(self.REG_MODES + [("never", 2)])
+            prof[lab] = None if mode == "never" else self.reg_profile(r, schema, mode, against=case["reg"])
+            if prof[lab] == [] and r.chance(0.4):
+                prof[lab] = None
+        # match processors per metamodel (default: the same rules as the main metamodel)
+        mregs = {}
+        for lab in others:
+            if prof[lab] is not None and r.chance(0.5):
+                mregs[str(lab)] = [m["name"] for m in schema["matches"] if r.chance(0.5)]
+            elif prof[lab] == []:
+                mregs[str(lab)] = []
+        if mregs:
+            case["match_regs"] = mregs
+        # user classes per metamodel (default: every user-class rule of the case in every metamodel)
+        users = {}
+        if schema["user"] and len(labels) > 1 and r.chance(0.65 if owners else 0.3):
+            upair = r.weighted([("main-none", 3), ("other-none", 2), ("free", 3)])
+            for lab in labels:
+                if upair == "free":
+                    kind = r.weighted([("all", 2), ("none", 2), ("some", 2)])
+                else:
+                    kind = "none" if (lab == 0) == (upair == "main-none") else r.weighted([("all", 3), ("some", 1)])
+                if kind != "all":
+                    users[lab] = [u for u in schema["user"] if kind == "some" and r.chance(0.5)]
+        timed, built = [], {}
+        for j, lab in enumerate(labels):
+            built[lab] = 100 * j
+            step = ["build", lab, True if lab == 0 else r.chance(0.85)]
+            if lab in users:
+                step.append(users[lab])
+            timed.append((100 * j, len(timed), step))
+            if lab != 0 and prof[lab] is not None:
+                timed.append((100 * j, len(timed), ["reg", lab, prof[lab]]))
+        end = 100 * len(labels)
+        tfinal = r.randint(built[0] + 1, end)
+        replaced = r.chance(0.3)
+        if replaced:  # a registration that is replaced by the final one
+            timed.append((r.randint(built[0] + 1, tfinal), len(timed), ["reg", 0, [x for x in rules if r.chance(0.5)]]))
+        if replaced or case["reg"] or case["match_reg"] or r.chance(0.5):
+            timed.append((tfinal, len(timed), ["reg", 0, None]))
+        for _ in range(r.weighted([(0, 2), (1, 4), (2, 3)])):
+            lab = r.choice(labels)
+            kind = r.weighted([("ok", 6), ("syntax", 1), ("ref", 1), ("proc", 1)])
+            main = r.below(nfiles) if nfiles > 1 and r.chance(0.5) else 0
+            timed.append((r.randint(built[lab] + 1, end + 20), len(timed), ["load", lab, kind, main]))
+        if repo and r.chance(0.8):  # an imported file was loaded before (as a main model): its model is kept
+            timed.append((r.randint(built[0] + 1, end + 20), len(timed), ["load", 0, "ok", r.randint(1, nfiles - 1)]))
+        case["history"] = {"steps": [st for _t, _n, st in sorted(timed, key=lambda x: x[:2])]}
+        if mmfile:
+            self.set_mmfile(case, mmfile)
 
     @staticmethod
     def set_mmfile(case, mmfile):
@@ -251,6 +347,32 @@ class Prop(Check):
         regs = Prop.regs(case)
         mmfile = case.get("mmfile") or {}
         return {k: regs.get(mmfile.get(str(k), 0), []) for k in range(len(case["files"]))}
+
+    @staticmethod
+    def file_label(case, k):
+        """label of the metamodel the model of file k belongs to."""
+        return (case.get("mmfile") or {}).get(str(k), 0)
+
+    @staticmethod
+    def users(case):
+        """label -> rules the metamodel has a user class for."""
+        return {st[1]: list(case["schema"]["user"]) if len(st) < 4 or st[3] is None else list(st[3])
+                for st in Prop.steps(case) if st[0] == "build"}
+
+    @staticmethod
+    def cn(name, label):
+        """class name in the Lean request (harness.procrun.Run.cname): classes are per metamodel."""
+        return name if not label else f"{name}@{label}"
+
+    def req_classes(self, case, obs):
+        """class table of the Lean request: the classes seen in the models, then the registered ones."""
+        classes = list(obs["classes"])
+        regs = self.regs(case)
+        for lab in dict.fromkeys([0] + [self.file_label(case, k) for k in range(len(case["files"]))]):
+            for r in regs.get(lab, []):
+                if self.cn(r, lab) not in classes:
+                    classes.append(self.cn(r, lab))
+        return classes
 
     DEFAULT_STEPS = [["build", 0, True], ["reg", 0, None]]
 
@@ -315,13 +437,13 @@ class Prop(Check):
             last = {st[1]: i for i, st in enumerate(steps) if st[0] == "reg"}
             for i, st in enumerate(steps):
                 if st[0] == "build":
-                    mm = run.new_metamodel(st[1], shared=st[2])
+                    mm = run.new_metamodel(st[1], shared=st[2], users=st[3] if len(st) > 3 else None)
                     if st[1] == 0:
                         run.mm = mm
                     run.providers(mm)
                 elif st[0] == "reg":
                     run.processors(mm=run.mms[st[1]], reg=case["reg"] if st[2] is None else st[2], label=st[1],
-                                   replaced=i != last[st[1]])
+                                   replaced=i != last[st[1]], match_reg=(case.get("match_regs") or {}).get(str(st[1])))
                 elif st[0] == "load":
                     run.fail_refs, run.fail_proc = st[2] == "ref", st[2] == "proc"
                     try:
@@ -348,7 +470,11 @@ class Prop(Check):
                 for m in get_included_models(model):
                     run.capture(m)  # models in which no processor ran: unchanged
                 obs["kept"] = sorted(k for k, m in run.models.items() if any(m is x for x in kept_roots))
-                obs["final"] = {str(k): run.deep(m, meta=False) for k, m in sorted(run.models.items())}
+                obs["final"] = {}
+                for k, m in sorted(run.models.items()):
+                    run.cur_label = run.owner.get(k, 0)  # class ids are per metamodel
+                    obs["final"][str(k)] = run.deep(m, meta=False)
+                run.cur_label = 0
                 obs["slots"] = {str(u): run.snapshot(o) for u, o in sorted(run.real.items())}
                 obs["linked_after"] = list(run.linked(list(run.models.values())))
             obs["events"] = run.finish_events()
@@ -357,7 +483,7 @@ class Prop(Check):
             obs["attrs"] = list(run.attrs)
             obs["kinds"] = []
             for name in run.classes:
-                t = run.class_of(name)._tx_type
+                t = run.class_of(name.split("@")[0])._tx_type
                 obs["kinds"].append({"common": 0, "abstract": 1, "match": 2}[t])
             obs["tags"] = dict(run.tags)
         finally:
@@ -368,20 +494,22 @@ class Prop(Check):
     def model_req(self, case, obs):
         if obs["outcome"] != "ok":
             return None
-        classes, attrs = obs["classes"], obs["attrs"]
+        attrs = obs["attrs"]
         fregs = self.file_regs(case)
-        allreg = list(dict.fromkeys(list(case["reg"]) + [r for rs in fregs.values() for r in rs]))
-        classes = classes + [r for r in allreg if r not in classes]
+        classes = self.req_classes(case, obs)
         kinds = list(obs["kinds"])
         schema = case["schema"]
         absn = {a["name"] for a in schema["abstracts"]}
         for name in classes[len(kinds):]:
-            kinds.append(1 if name in absn else 0)
+            kinds.append(1 if name.split("@")[0] in absn else 0)
         script = []
         new = self.new_files(case, obs)
         uid_file = self.uid_files(case)
         for rule, uid, beh in case.get("script", []):
-            if rule not in classes or uid_file.get(uid) not in new:
+            if uid_file.get(uid) not in new:
+                continue
+            rule = self.cn(rule, self.file_label(case, uid_file[uid]))
+            if rule not in classes:
                 continue
             if beh[0] == "v":
                 ret = ["v", VALUE_TAG[vkey(VALUES[beh[1]])]]
@@ -405,8 +533,9 @@ class Prop(Check):
             "op": "objproc",
             "kinds": kinds,
             "reg": [classes.index(r) for r in self.regs(case).get(0, [])],
-            "regs": [[classes.index(r) for r in fregs[k]] for k in order],
-            "user": [classes.index(u) for u in schema["user"] if u in classes],
+            "regs": [[classes.index(self.cn(r, self.file_label(case, k))) for r in fregs[k]] for k in order],
+            "user": [classes.index(self.cn(u, lab)) for lab, us in sorted(self.users(case).items()) for u in us
+                     if self.cn(u, lab) in classes],
             "script": script,
             "resolves": list(range(nres)),
             "link": link,
@@ -440,8 +569,7 @@ class Prop(Check):
     def compare(self, case, obs, out):
         if "err" in out:
             return f"Lean model rejects the request: {out}"
-        allreg = list(dict.fromkeys(list(case["reg"]) + [r for rs in self.file_regs(case).values() for r in rs]))
-        classes = obs["classes"] + [r for r in allreg if r not in obs["classes"]]
+        classes = [c.split("@")[0] for c in self.req_classes(case, obs)]
         order = self.model_order(obs, self.new_files(case, obs))
         alien = [e[1:] for e in obs["events"] if e[0] == "alien"]
         if alien:
@@ -700,7 +828,8 @@ class Prop(Check):
             return False
         rend = pg.render(case, case.get("layout", 0))
         absn = {a["name"] for a in case["schema"]["abstracts"]}
-        abs_hit = any(o["decl"] in absn and o["decl"] in case["reg"] for o in rend.objs.values())
+        fregs = self.file_regs(case)
+        abs_hit = any(o["decl"] in absn and o["decl"] in fregs[o["file"]] for o in rend.objs.values())
         replaced = any(isinstance(x, dict) and x.get("p") in VALUE_TAG.values()
                        for s in obs["slots"].values() for v in s for x in (v if isinstance(v, list) else [v]))
         return abs_hit or replaced
@@ -715,7 +844,11 @@ class Prop(Check):
              "proc_calls": 0, "objects": 0, "grammar_files>1": 0, "transitively_imported_objects": 0,
              "model_repository": 0, "models_kept_from_earlier_loads": 0, "history": 0, "shared_user_class_metamodels": 0,
              "observed_metamodel_not_newest": 0, "earlier_loads_ok": 0, "earlier_loads_failed": 0,
-             "replaced_registration": 0, "files_of_another_metamodel": 0}
+             "replaced_registration": 0, "files_of_another_metamodel": 0,
+             "main_metamodel_without_any_processor": 0, "register_never_called_on_main": 0,
+             "main_without_processor_imports_file_of_metamodel_with": 0,
+             "main_with_processor_imports_file_of_metamodel_without": 0,
+             "metamodels_with_different_user_classes": 0, "metamodels_with_different_match_processors": 0}
         for c, o in zip(cases, obs):
             if not isinstance(o, dict) or "events" not in o:
                 continue
@@ -734,6 +867,18 @@ class Prop(Check):
             d["files_of_another_metamodel"] += bool(c.get("mmfile"))
             d["models_kept_from_earlier_loads"] += bool(o.get("kept"))
             steps = self.steps(c)
+            regs, mregs = self.regs(c), c.get("match_regs") or {}
+            none0 = not regs.get(0) and not (c.get("match_reg") and any(st[0] == "reg" and st[1] == 0 for st in steps))
+            d["main_metamodel_without_any_processor"] += none0
+            d["register_never_called_on_main"] += not any(st[0] == "reg" and st[1] == 0 for st in steps)
+            owners = set((c.get("mmfile") or {}).values())
+            d["main_without_processor_imports_file_of_metamodel_with"] += none0 and any(regs.get(x) for x in owners)
+            d["main_with_processor_imports_file_of_metamodel_without"] += bool(regs.get(0)) and any(
+                not regs.get(x) for x in owners)
+            us = self.users(c)
+            d["metamodels_with_different_user_classes"] += len({tuple(v) for v in us.values()}) > 1
+            d["metamodels_with_different_match_processors"] += any(
+                sorted(v) != sorted(c.get("match_reg", [])) for v in mregs.values())
             if c.get("history"):
                 d["history"] += 1
                 builds = [st for st in steps if st[0] == "build"]
@@ -769,7 +914,18 @@ class Prop(Check):
                 c = copy.deepcopy(case)
                 del c["history"]["steps"][i]
                 yield c
-        for key in ("gsplit", "grepo"):
+        if steps:
+            for i, st in enumerate(steps):
+                if st[0] == "build" and len(st) > 3:  # the default set of user classes
+                    c = copy.deepcopy(case)
+                    del c["history"]["steps"][i][3:]
+                    yield c
+                if st[0] == "reg" and st[2]:  # fewer registrations in the other metamodels
+                    for j in range(len(st[2])):
+                        c = copy.deepcopy(case)
+                        del c["history"]["steps"][i][2][j]
+                        yield c
+        for key in ("gsplit", "grepo", "match_regs"):
             if case.get(key):
                 c = copy.deepcopy(case)
                 del c[key]
